@@ -79,20 +79,21 @@ type BlockingOp struct {
 }
 
 type LockAnalysis struct {
-	p       *Prog
-	Must    map[ssa.Instruction]LockSet
-	May     map[ssa.Instruction]LockSet
-	EntryMu map[*ssa.Function]LockSet // must entry lockset
-	EntryMa map[*ssa.Function]LockSet
-	Ops     []LockOp
-	opAt    map[ssa.Instruction]*LockOp
-	Roles   map[*ssa.Function]map[string]bool
+	p         *Prog
+	Must      map[ssa.Instruction]LockSet
+	May       map[ssa.Instruction]LockSet
+	EntryMu   map[*ssa.Function]LockSet // must entry lockset
+	EntryMa   map[*ssa.Function]LockSet
+	Ops       []LockOp
+	opAt      map[ssa.Instruction]*LockOp
+	Roles     map[*ssa.Function]map[string]bool
 	RoleRoots map[string][]*ssa.Function
-	Reached map[*ssa.Function]bool
-	summ    map[*ssa.Function]LockSet // net effect (must mode) with entry ∅
-	summMay map[*ssa.Function]LockSet
-	inSumm  map[*ssa.Function]bool
-	GoSites []*ssa.Go
+	Reached   map[*ssa.Function]bool
+	summ      map[*ssa.Function]LockSet // net effect (must mode) with entry ∅
+	summMay   map[*ssa.Function]LockSet
+	inSumm    map[*ssa.Function]bool
+	GoSites   []*ssa.Go
+	pkgRoots  string
 }
 
 // lockOpOf classifies a call instruction as a lock operation.
@@ -159,8 +160,12 @@ func (c *Ctx) Locks() *LockAnalysis {
 	return c.locks
 }
 
-func newLockAnalysis(p *Prog) *LockAnalysis {
-	la := &LockAnalysis{p: p, Must: map[ssa.Instruction]LockSet{}, May: map[ssa.Instruction]LockSet{}, EntryMu: map[*ssa.Function]LockSet{},
+func newLockAnalysis(p *Prog) *LockAnalysis { return newLockAnalysisFor(p, "") }
+
+// newLockAnalysisFor: with pkgRel != "" the roots are the exported functions and methods of that package, all of which
+// may be called concurrently (the package used on its own, as C11 quantifies over).
+func newLockAnalysisFor(p *Prog, pkgRel string) *LockAnalysis {
+	la := &LockAnalysis{p: p, pkgRoots: pkgRel, Must: map[ssa.Instruction]LockSet{}, May: map[ssa.Instruction]LockSet{}, EntryMu: map[*ssa.Function]LockSet{},
 		EntryMa: map[*ssa.Function]LockSet{}, opAt: map[ssa.Instruction]*LockOp{}, Roles: map[*ssa.Function]map[string]bool{},
 		RoleRoots: map[string][]*ssa.Function{}, Reached: map[*ssa.Function]bool{}, summ: map[*ssa.Function]LockSet{}, summMay: map[*ssa.Function]LockSet{}, inSumm: map[*ssa.Function]bool{}}
 	for _, f := range p.Funcs {
@@ -227,6 +232,29 @@ func (la *LockAnalysis) roleReach(roots []*ssa.Function) map[*ssa.Function]bool 
 
 func (la *LockAnalysis) computeRoles() {
 	p := la.p
+	if la.pkgRoots != "" {
+		pk := p.SSAPkg[p.pkgPath(la.pkgRoots)]
+		var U []*ssa.Function
+		for _, f := range p.Funcs {
+			if f.Pkg != pk || f.Parent() != nil {
+				continue
+			}
+			obj, _ := f.Object().(*types.Func)
+			if obj == nil || !obj.Exported() {
+				continue
+			}
+			if strings.HasSuffix(p.Fset.Position(f.Pos()).Filename, "_test.go") {
+				continue
+			}
+			U = append(U, f)
+		}
+		la.RoleRoots["U"] = U
+		for f := range la.roleReach(U) {
+			la.Roles[f] = map[string]bool{"U": true}
+			la.Reached[f] = true
+		}
+		return
+	}
 	root := p.SSAPkg[p.ModPath]
 	open := p.Fn("", "", "Open")
 	closeFn := p.Fn("", "DB", "Close")
@@ -459,6 +487,11 @@ func (la *LockAnalysis) flow(f *ssa.Function, entry lstate, must bool, onCall fu
 						onCall(d, s.locks)
 					}
 					if op := la.opAt[d]; op != nil {
+						// a deferred unlock registered only on some paths (lock and defer inside a branch) does not run on the
+						// paths that did not take the lock
+						if op.Unlock && s.locks[op.Lock] <= 0 {
+							continue
+						}
 						la.applyOp(s.locks, op)
 						continue
 					}
